@@ -45,6 +45,12 @@ FILTERS = [
     ('True', lambda m: True),
     ('${%edition} == 7', lambda m: False),
     ('${%length} > 60', lambda m: m['length'] > 60),
+    # the same expression used again after a different one (one variable per distinct expression)
+    ('(${%edition} == 3 and ${%n_subsets} > 1) or (${%edition} == 4 and ${%n_subsets} == 1)',
+     lambda m: (m['edition'] == 3 and m['n_subsets'] > 1) or (m['edition'] == 4 and m['n_subsets'] == 1)),
+    ('${%data_category} == 3 or (${%edition} == 2 and ${%data_category} == 0) or ${ %edition } == 4',
+     lambda m: m['data_category'] == 3 or (m['edition'] == 2 and m['data_category'] == 0) or m['edition'] == 4),
+    ('${%n_subsets} + ${%edition} > 5 and not (${%n_subsets} == 3)', lambda m: m['n_subsets'] + m['edition'] > 5 and not m['n_subsets'] == 3),
 ]
 
 
